@@ -61,6 +61,21 @@ func (e *Exec) bank() *BankModel {
 	return e.path.bank
 }
 
+// bankFor: the bank state seen through a context (a cache context has its own branch).
+func (e *Exec) bankFor(ctx Value) *BankModel {
+	if co, ok := ctx.(Opaque); ok {
+		if cd, ok := co.Data.(*CtxData); ok && cd != nil && cd.Bank != nil {
+			return cd.Bank
+		}
+	}
+	return e.bank()
+}
+
+func (b *BankModel) clone() *BankModel {
+	c := *b
+	return &c
+}
+
 func spendable(total, locked *smt.Term) *smt.Term {
 	return smt.Ite(smt.ULt(locked, total), smt.Sub(total, locked), c0)
 }
@@ -174,6 +189,9 @@ func init() {
 
 func (e *Exec) bankMethod(o Opaque, method string, args []Value) Value {
 	b := e.bank()
+	if len(args) > 0 {
+		b = e.bankFor(args[0])
+	}
 	e.StubsSeen["bank."+method] = true
 	switch method {
 	case "GetAllBalances":
